@@ -60,6 +60,14 @@ def gen(rs: int, tier: str, index: int) -> dict:
                 m["mw_labels"] = {"origin": r.choice(["api", "", "cron"]), "trace": str(r.randint(0, 10**6))}
             if m.get("timeout") is not None and r.random() < 0.6:
                 m["timeout_untyped"] = True
+            if m.get("labels") and r.random() < 0.3:
+                m["mw_pop_label"] = r.choice(sorted(m["labels"]))
+    for m in s["messages"]:
+        # a timeout label that cannot be read as a number (async tasks only): the execution fails with that ValueError, the error is
+        # stored like any other and the message completes processing
+        ts = s["tasks"][m["task"]] if isinstance(m.get("task"), int) else {}
+        if m.get("kind", "valid") == "valid" and not ts.get("sync") and m.get("timeout") is None and r.random() < 0.04:
+            m["timeout_raw"] = r.choice(["soon", "None", "1s", ""])
     if r.random() < 0.1 and s["messages"]:
         # the task name of template 0 is registered again half-way with a function of the other kind (sync <-> async)
         times = sorted(m["send_at_us"] for m in s["messages"])
@@ -68,10 +76,16 @@ def gen(rs: int, tier: str, index: int) -> dict:
         for m in s["messages"]:
             if m.get("task") == 0:
                 m.pop("timeout", None)
+                m.pop("timeout_raw", None)
                 for a in m.get("attempts", []):
                     if a.get("out", ["ret"])[0] in ("requeue", "reject"):
                         a["out"] = ["ret"]
     return s
+
+
+def ts_sync(script: dict, m: dict) -> bool:
+    t = m.get("task", 0)
+    return bool(isinstance(t, int) and script["tasks"][t].get("sync"))
 
 
 def user_labels(enc: dict) -> dict:
@@ -103,6 +117,15 @@ def oracle(script: dict, run: Any) -> List[Violation]:
             if len(sv) != 1 or not (sv[0][5]["is_err"] and sv[0][5]["err"] == "TimeoutError"):
                 out.append(Violation("C07/timeout-not-reported", f"delivery {d}: zero timeout label, the body never ran, but {len(sv)} results stored"
                                      + (f" (is_err={sv[0][5]['is_err']} err={sv[0][5]['err']})" if sv else "")))
+            continue
+        if cbx is not None and m.get("timeout_raw") is not None and not h.of(d, "dep_fail") and not ts_sync(script, m):
+            sv = h.of(d, "save_enter")
+            if fe is not None:
+                out.append(Violation("C07/wrong-error", f"delivery {d}: the timeout label {m['timeout_raw']!r} is not a number, yet the task function was started"))
+            elif len(sv) != 1 or not (sv[0][5]["is_err"] and sv[0][5]["err"] == "ValueError") or cbx[5].get("how") != "ok":
+                out.append(Violation("C07/wrong-number-of-results", f"delivery {d}: unreadable timeout label {m['timeout_raw']!r}: expected one stored ValueError result and "
+                                     f"completed processing, got {len(sv)} results" + (f" (is_err={sv[0][5]['is_err']} err={sv[0][5]['err']})" if sv else "")
+                                     + f", callback() ended with {cbx[5].get('how')}"))
             continue
         if cbx is None or fe is None:
             continue
@@ -171,6 +194,7 @@ def oracle(script: dict, run: Any) -> List[Violation]:
         if tmo is not None:
             want_labels["timeout"] = ["float", repr(float(tmo))]
         if script["config"].get("client_label_adder"):
+            want_labels.pop(m.get("mw_pop_label"), None)
             for name, val in (m.get("mw_labels") or {}).items():
                 want_labels[name] = ["str", val]
             if tmo is not None and m.get("timeout_untyped"):
